@@ -106,6 +106,11 @@ theorem finishMerge_dict_children (sf of : Flags) (scs' ocs : List (Key × Node)
       cases alookup k scs' <;> simp [nativeOf_applyKw]
   · injection h with h
     injection h with h _
-    rw [← h]; rfl
+    rw [← h]
+    simp only [propagate]
+    split
+    · rfl
+    · simp only [Node.children, alookup_applyKwList]
+      cases alookup k scs' <;> simp [nativeOf_applyKw]
 
 end AY
